@@ -299,6 +299,20 @@ static void record_table01(Trace& T, Rng& g, int N)
 	if(fd > 0)
 		for(double& v : t.y)
 			v *= fd;
+	// optionally a prefactor set before any query (Set_Prefactor / Multiply, as Perform_KDE does): every clause is then about the scaled curve
+	if(g.coin(0.4))
+	{
+		double pf = (g.coin(0.4) ? -1.0 : 1.0) * std::ldexp(1.0, (int)g.range(-30, 30));
+		if(g.coin())
+			I.Set_Prefactor(pf);
+		else
+		{
+			I.Multiply(-2.0);
+			I.Multiply(pf / -2.0);
+		}
+		for(double& v : t.y)
+			v *= pf;
+	}
 	T.emit({{"e", "Reset"}, {"N", N}, {"dim", 1}});
 	const int M = 64;
 	std::vector<double> midv(N - 1), knotr(N - 1);
@@ -412,12 +426,12 @@ static void record_grid01(Trace& T, Rng& g, int Nx, int Ny)
 {
 	Table tx = random_table(g, Nx, -1, 0), ty = random_table(g, Ny, -1, 0);
 	std::vector<std::vector<double>> F(Nx, std::vector<double>(Ny));
-	int fstyle = (int)g.range(0, 2);
+	int fstyle = (int)g.range(0, 3);	  // 3: entries of mixed magnitude (1e-20 .. 1e20 side by side)
 	double mag = std::pow(10.0, g.uni(-10, 10));
 	double al = g.gauss(), be = g.gauss(), ga = g.gauss(), de = g.gauss();
 	for(int i = 0; i < Nx; i++)
 		for(int j = 0; j < Ny; j++)
-			F[i][j] = fstyle == 0 ? g.gauss() * mag : (fstyle == 1 ? (double)g.range(-2, 2) : mag * (al + be * tx.x[i] + ga * ty.x[j] + de * tx.x[i] * ty.x[j]));
+			F[i][j] = fstyle == 0 ? g.gauss() * mag : (fstyle == 1 ? (double)g.range(-2, 2) : (fstyle == 3 ? g.gauss() * std::pow(10.0, g.uni(-20, 20)) : mag * (al + be * tx.x[i] + ga * ty.x[j] + de * tx.x[i] * ty.x[j])));
 	intent("construct 2D");
 	Interpolation_2D I(tx.x, ty.x, F);
 	T.emit({{"e", "Reset"}, {"N", (Nx - 1) * (Ny - 1) + 1}, {"dim", 2}});
@@ -432,7 +446,9 @@ static void record_grid01(Trace& T, Rng& g, int Nx, int Ny)
 			long nout = 0, nodeq = 0, edgeq = 0, bilq = 0;
 			intent("cell " + std::to_string(i) + "," + std::to_string(j));
 			double x0 = tx.x[i], x1 = tx.x[i + 1], y0 = ty.x[j], y1 = ty.x[j + 1];
-			nodeq = std::max({quant(I(x0, y0) - f0, slack), quant(I(x1, y0) - f1, slack), quant(I(x1, y1) - f2, slack), quant(I(x0, y1) - f3, slack)});
+			// grid values at grid nodes: to the rounding of the node's OWN value (the weights of the other corners vanish there)
+			auto nodeslack = [&](double f) { return 16 * EPS * std::max(std::fabs(f), 1e-300); };
+			nodeq = std::max({quant(I(x0, y0) - f0, nodeslack(f0)), quant(I(x1, y0) - f1, nodeslack(f1)), quant(I(x1, y1) - f2, nodeslack(f2)), quant(I(x0, y1) - f3, nodeslack(f3))});
 			for(int k = 0; k < 24; k++)
 			{
 				double x = x0 + (x1 - x0) * g.u01(), y = y0 + (y1 - y0) * g.u01();
